@@ -825,7 +825,7 @@ func Main(args []string) int {
 	scenarios := map[string]func(){
 		"basic": r.scBasic, "compact": r.scCompact, "restore": r.scRestore,
 		"follow": r.scFollow, "behind": r.scBehind, "reopen": r.scReopen, "restorev3": r.scRestoreV3,
-		"pinned": r.scPinned, "ckptbusy": r.scCkptBusy, "restoreside": r.scRestoreSide, "republish": r.scRepublish,
+		"pinned": r.scPinned, "ckptbusy": r.scCkptBusy, "restoreside": r.scRestoreSide, "republish": r.scRepublish, "l0ret": r.scL0Ret,
 	}
 	r.noInsert = *noInsert
 	r.snapFirst = *snapFirst
